@@ -78,7 +78,7 @@ quiet if-else C01
 patchquiet() { # patch, property...
   pf="$1"; shift
   git -C "$R" checkout -q -- . && git -C "$R" clean -fdq
-  git -C "$R" apply "$pf" || { echo "selftest: $pf does not apply"; fail=1; return; }
+  git -C "$R" apply "$PWD/$pf" || { echo "selftest: $pf does not apply"; fail=1; return; }
   quiet "$(basename $(dirname $pf))/$(basename $pf)" "$@"
   git -C "$R" clean -fdq
 }
@@ -96,7 +96,7 @@ patchquiet seeded/benign2/langstring/patch2.diff C16
 #    ... and the same kind of edit with a mistake in it must be reported
 for bad in tools/probes/helper_gate_mod2_bad.diff tools/probes/helper_swapped_args_bad.diff; do
   git -C "$R" checkout -q -- . && git -C "$R" clean -fdq
-  git -C "$R" apply "$bad"
+  git -C "$R" apply "$PWD/$bad"
   out=$(./check C09 quick 2>&1); rc=$?
   if [ $rc -eq 1 ] && echo "$out" | grep -q '^VIOLATION'; then echo "reported $(basename $bad)"; else echo "MISSED $(basename $bad)"; fail=1; fi
   git -C "$R" checkout -q -- . && git -C "$R" clean -fdq
